@@ -180,7 +180,14 @@ func (e *Engine) contractFrame(c *Contract, sig *types.Signature, invoke bool) [
 	return []frameEntry{{allComps(), -1}}
 }
 
-func (e *Engine) nonNilParams(f *ssa.Function) bool { return true }
+func (e *Engine) nullableParam(f *ssa.Function, i int) bool {
+	c := e.contractFor(f)
+	if c == nil || c.Nullable == nil {
+		return false
+	}
+	pn, _, _, _ := sigNames(f.Signature)
+	return i < len(pn) && c.Nullable[pn[i]]
+}
 
 func (e *Engine) pkgByName(from *ssa.Package, name string) *ssa.Package {
 	if from != nil {
@@ -189,8 +196,21 @@ func (e *Engine) pkgByName(from *ssa.Package, name string) *ssa.Package {
 				return e.prog.Package(imp)
 			}
 		}
+		if from.Pkg.Name() == name {
+			return from
+		}
 	}
-	return nil
+	// fall back to a unique package of that name in the module
+	var found *ssa.Package
+	for _, sp := range e.prog.AllPackages() {
+		if sp.Pkg.Name() == name && strings.HasPrefix(sp.Pkg.Path(), e.modPath) {
+			if found != nil {
+				return nil
+			}
+			found = sp
+		}
+	}
+	return found
 }
 
 // ---------- inferred frames (mod sets) ----------
@@ -611,7 +631,7 @@ func (e *Engine) globalFacts(vc *VC, g *ssa.Global, ref string) {
 			vc.decls = append(vc.decls, fmt.Sprintf("(assert (not (= (select (select %s %s) %s) 0)))", vc.heap0.m["p.r"], ref, off64(0)))
 		}
 	}
-	if len(gi.cells) > 0 && len(gi.cells) <= 4096 && !vc.intMode {
+	if len(gi.cells) > 0 && len(gi.cells) <= 4096 {
 		offs := make([]int64, 0, len(gi.cells))
 		for o := range gi.cells {
 			offs = append(offs, o)
@@ -620,7 +640,15 @@ func (e *Engine) globalFacts(vc *VC, g *ssa.Global, ref string) {
 		for _, o := range offs {
 			cl := gi.kinds[o]
 			comp := compsOf(cl.Kind, cl.W)[0].name
-			vc.decls = append(vc.decls, fmt.Sprintf("(assert (= (select (select %s %s) %s) %s))", vc.heap0.m[comp], ref, off64(o), gi.cells[o]))
+			cv := gi.cells[o]
+			if vc.intMode {
+				n, _, _ := asLit(cv)
+				if cl.Signed {
+					n = toSigned(n, cl.W)
+				}
+				cv = intLit(n)
+			}
+			vc.decls = append(vc.decls, fmt.Sprintf("(assert (= (select (select %s %s) %s) %s))", vc.heap0.m[comp], ref, off64(o), cv))
 		}
 		vc.note("initial contents of constant global %s taken from package init (%d cells)", g.Name(), len(gi.cells))
 	}
